@@ -442,7 +442,9 @@ def run (ctx):
     g2 = q.cfg_of(sr)
     iv = g2.interval(lambda n: any(call_name(c) == '_incoming_stats_reply' for c in q.node_calls(n)))
     ctx.ob('R-EFFECT', sr, "every stats reply part enters reassembly exactly once", iv == (1, 1), "count %s" % (iv,), sr, 'D3')
-
+  # ---- mechanisms this property shares with others: their checks' rules about these functions are obligations here too
+  ctx.include('C05', ['EventMixin.raiseEvent', 'EventMixin.addListener'], 'statistics and port events are delivered by revent')
+  ctx.include('C09', ['_finish_connecting', 'handle_PORT_STATUS'], 'early port-status messages are replayed by the handshake')
 
 def early_port_status_kept (ctx, repo, hsc, clause):
   hp = hsc.methods.get('handle_PORT_STATUS') if hsc is not None else None
